@@ -315,7 +315,7 @@ func runC01Fault(cfg Cfg, keys []string, ops []Op, res *TaskResult) *Violation {
 			// the mapping with and without it are accepted after the restart. A batch whose Commit failed has no sealing
 			// record: it stays invisible.
 			var alt map[string]string
-			if ar.Err != nil && last.K != "batch" {
+			if false && ar.Err != nil && last.K != "batch" { // (no longer accepted: a failed operation is undone in the log, see repair 54)
 				alt = copyModel(before)
 				switch last.K {
 				case "put":
@@ -395,5 +395,6 @@ func c01FaultAlphabet(c Cfg) []Op {
 		{K: "del", Key: "a"},
 		{K: "put", Key: "b", VC: "X"}, // rotates
 		{K: "batch", Sub: []Op{{K: "put", Key: "a", VC: "S"}, {K: "del", Key: "b"}}},
+		{K: "batch", Arg: 1, Sub: []Op{{K: "put", Key: "b", VC: "S"}, {K: "del", Key: "a"}}}, // BatchOptions.Sync: Commit also flushes
 	}
 }
